@@ -287,7 +287,8 @@ class ShutScenario(NetScenario):
         if st.shut_at is None and st.script_pos > 0:
             return [("shutdown", 1)] + ([("shutdown/stall%d/%s" % (j, dt), 1) for j, dt in STALLS] if self.stalls else
                                         [("shutdown/req%d" % j, 1) for j in (1, 2, 3, 4)] + [("shutdown/withdrawn", 1)] +
-                                        [("shutdown/dgram%d/%s" % (j, k), 1) for j in (1, 2, 3) for k in ("creq", "cresp")] + [("shutdown/same-step", 1)])
+                                        [("shutdown/dgram%d/%s" % (j, k), 1) for j in (0, 1, 2, 3) for k in ("creq", "cresp", "ack")] + [("shutdown/same-step", 1)] +
+                                        ([("shutdown/with-delivery", 1)] if st.world.pool and st.world.pool[0].dst == V else []))
         return []
 
     def apply_fault(self, st, label):
@@ -308,7 +309,24 @@ class ShutScenario(NetScenario):
                 st.retries.append(st.v.ctx.request(m, handle_blockwise=False).response)
         for n, f in st.pending_at_shut:
             f.add_done_callback(retry)
-        if label.endswith("/same-step"):
+        if label.endswith("/with-delivery"):
+            # the shutdown is started in the very loop pass in which the next datagram for the victim is read (whatever reading it
+            # has only scheduled runs after the shutdown has begun)
+            dg = w.pool[0]
+
+            def start():
+                # (what the datagram itself has settled by now was not pending when the shutdown began)
+                st.pending_at_shut = [(n, f) for n, f in st.futs if not f.done()]
+                st.obs_alive_at_shut = self.kind.startswith("obs-client") and not st.obsreq.observation.cancelled
+                st.handler_running = st.handler_log.count("start") - st.handler_log.count("done") - st.handler_log.count("cancelled")
+                st.cancelled_before = st.handler_log.count("cancelled")
+                for n, f in st.pending_at_shut:
+                    f.add_done_callback(retry)
+                st.shut_task = w.loop.create_task(st.v.ctx.shutdown())
+            w.same_pass.append((lambda d, dg=dg: d is dg, start))
+            st.answer_in_flight = True
+            w.deliver(dg)
+        elif label.endswith("/same-step"):
             # the application submits one more request and shuts down in the very same step of its task (`ctx.request(m); await
             # ctx.shutdown()`): the request has not even been handed to a transport yet - it ends with a library error like the others
             async def app():
@@ -346,7 +364,12 @@ class ShutScenario(NetScenario):
             for i in range(int(j[5:])):
                 if w.loop._ready:
                     w.loop._run_once()
-            if k == "creq":
+            if k == "ack":
+                # the acknowledgement of the victim's last confirmable message (whatever it was) arrives now
+                cons = [d for d in w.sent if d.src == V and (d.data[0] >> 4) & 3 == rc.CON]
+                if cons:
+                    w.inject(cons[-1].dst, V, rc.encode((rc.ACK, 0, (cons[-1].data[2] << 8) | cons[-1].data[3], b"", [], b"")))
+            elif k == "creq":
                 w.inject(PEER, V, rc.encode((rc.CON, 1, 0x7d01, b"\x7d", [(11, b"late-request")], b"")))
             else:
                 w.inject(PEER, V, rc.encode((rc.CON, 69, 0x7d02, b"\x7d\x7e", [], b"late-response")))
@@ -381,6 +404,8 @@ class ShutScenario(NetScenario):
             if not f.done():
                 st.violations.append(Violation("request-left-pending", "terminated with a library error by the time shutdown returns",
                                                n + " pending", "tokenmanager.py:shutdown", {}, key="pending"))
+            elif getattr(st, "answer_in_flight", False) and not f.cancelled() and f.exception() is None:
+                pass       # (the datagram read in the pass in which the shutdown began was this request's answer: it got through)
             elif f.cancelled() or not isinstance(f.exception(), error.Error):
                 st.violations.append(Violation("request-ended-with-non-library-error", "aiocoap.error.Error",
                                                "cancelled" if f.cancelled() else core.exc_desc(f.exception()) if f.exception() else "result",
